@@ -156,8 +156,11 @@ def laguerre_der(n, alpha, x):
     """
     # see wiki
     # d^k/dx^k L_n^alpha = (-1)^k L_(n-k)^(alpha+k)
+    # d/dx L_n^(alpha)(x) = -L_{n-1}^(alpha+1)(x), and the derivative of the constant L_0 is zero
+    if n == 0:
+        return np.zeros_like(x)
     k = 1
-    return laguerre(n-k, alpha+k, x)
+    return -laguerre(n-k, alpha+k, x)
 
 
 def laguerre_der_seq(ns, alpha, x):
@@ -180,6 +183,13 @@ def laguerre_der_seq(ns, alpha, x):
         d/dx of generalized laguerre polynomials evaluated at the given points
 
     """
+    # d/dx L_n^(alpha)(x) = -L_{n-1}^(alpha+1)(x), and the derivative of the constant L_0 is zero
     k = 1
+    ns = list(ns)
+    if ns[0] == 0:
+        out = np.zeros((len(ns), *x.shape), dtype=x.dtype)
+        if len(ns) > 1:
+            out[1:] = -laguerre_seq([n-k for n in ns[1:]], alpha+k, x)
+        return out
     ns = [n-k for n in ns]
-    return laguerre_seq(ns, alpha+k, x)
+    return -laguerre_seq(ns, alpha+k, x)
